@@ -487,10 +487,22 @@ theorem trueIdx_cons (x : PV) (xs : List PV) (i : Nat) :
     trueIdx (x :: xs) i = if x.truthy then .int i :: trueIdx xs (i + 1) else trueIdx xs (i + 1) := rfl
 @[simp] theorem trueIdx_cons_bool (b : Bool) (xs : List PV) (i : Nat) :
     trueIdx (.bool b :: xs) i = if b then .int i :: trueIdx xs (i + 1) else trueIdx xs (i + 1) := rfl
-@[simp] theorem npWhere_arr (l : List PV) : npWhere (.arr l) = .ok (.tup [.arr (trueIdx l 0)]) := rfl
+
+/-- `where` of a one-dimensional array (no item is a row). -/
+@[simp] theorem npWhere_arr {l : List PV} (h : l.any PV.isArr = false) :
+    npWhere (.arr l) = .ok (.tup [.arr (trueIdx l 0)]) := by
+  simp only [npWhere, h, Bool.false_eq_true, if_false]
+/-- … of an array of bools computed from a list (the shape every comparison produces). -/
+@[simp] theorem npWhere_arr_map_bool {α} (p : α → Bool) (l : List α) :
+    npWhere (.arr (l.map fun x => .bool (p x))) = .ok (.tup [.arr (trueIdx (l.map fun x => .bool (p x)) 0)]) :=
+  npWhere_arr (any_isArr_map_bool p l)
+@[simp] theorem npWhere_arr_map_bool' (l : List Bool) :
+    npWhere (.arr (l.map .bool)) = .ok (.tup [.arr (trueIdx (l.map .bool) 0)]) :=
+  npWhere_arr (any_isArr_map_bool' l)
 /-- `where(cond)[0]`. -/
-theorem npWhere_zero (l : List PV) :
-    (bnd (npWhere (.arr l)) fun t => pyIndex t (.int 0)) = .ok (.arr (trueIdx l 0)) := rfl
+theorem npWhere_zero {l : List PV} (h : l.any PV.isArr = false) :
+    (bnd (npWhere (.arr l)) fun t => pyIndex t (.int 0)) = .ok (.arr (trueIdx l 0)) := by
+  rw [npWhere_arr h]; rfl
 
 /-- the indices of the truthy entries, as a filter of the positions. -/
 theorem trueIdx_eq_filter_range {l : List PV} (q : Nat → Bool)
@@ -526,7 +538,7 @@ theorem trueIdx_map_bool {α} (p : α → Bool) (l : List α) (d : α) (i : Nat)
 theorem npWhere_map_bool {α} (p : α → Bool) (l : List α) (d : α) :
     (bnd (npWhere (.arr (l.map fun x => .bool (p x)))) fun t => pyIndex t (.int 0)) =
       .ok (.arr (((List.range l.length).filter fun j => p (l.getD j d)).map fun (j : Nat) => PV.int (j : Int))) := by
-  rw [npWhere_zero, trueIdx_map_bool p l d 0]; simp
+  rw [npWhere_zero (any_isArr_map_bool p l), trueIdx_map_bool p l d 0]; simp
 
 /-- `where(arr == p)[0]` starts with the first position of `p`. -/
 theorem trueIdx_beq_of_mem {l : List Nat} {p : Nat} (h : p ∈ l) (i : Nat) :
@@ -561,13 +573,13 @@ theorem where_eq_first {l : List Nat} {p : Nat} (h : p ∈ l) :
         fun t => pyIndex t (.int 0)) fun t => pyIndex t (.int 0)) = .ok (.int ((l.idxOf p : Nat) : Int)) := by
   obtain ⟨rest, hr⟩ := trueIdx_beq_of_mem h 0
   rw [npCmp_pyEq_nats_nat]
-  simp only [bnd_ok, npWhere_arr, pyIndex_tup_cons_zero, hr, pyIndex_arr_cons_zero, Nat.zero_add]
+  simp only [bnd_ok, npWhere_arr_map_bool, pyIndex_tup_cons_zero, hr, pyIndex_arr_cons_zero, Nat.zero_add]
 /-- … `IndexError` when `p` does not occur. -/
 theorem where_eq_first_of_not_mem {l : List Nat} {p : Nat} (h : p ∉ l) :
     (bnd (bnd (bnd (npCmp pyEq (.arr (l.map fun (n : Nat) => .int (n : Int))) (.int p)) fun t => npWhere t)
         fun t => pyIndex t (.int 0)) fun t => pyIndex t (.int 0)) = .error .indexError := by
   rw [npCmp_pyEq_nats_nat]
-  simp only [bnd_ok, npWhere_arr, pyIndex_tup_cons_zero, trueIdx_beq_of_not_mem h 0, pyIndex_arr_nil]
+  simp only [bnd_ok, npWhere_arr_map_bool, pyIndex_tup_cons_zero, trueIdx_beq_of_not_mem h 0, pyIndex_arr_nil]
 
 /-! ## §5 accessors and shuffle tables -/
 
